@@ -102,7 +102,10 @@ fn compile_native_asset_for_output(
     let policy = primitives::Hash::from(policy.as_slice());
     let asset_name = coercion::expr_into_bytes(&ir.asset_name)?;
     let amount = coercion::expr_into_number(&ir.amount)?;
-    let amount = primitives::PositiveCoin::try_from(amount as u64).unwrap();
+    let amount = u64::try_from(amount)
+        .ok()
+        .and_then(|x| primitives::PositiveCoin::try_from(x).ok())
+        .ok_or_else(|| Error::CoerceError(format!("{amount}"), "PositiveCoin".to_string()))?;
 
     let asset = asset!(policy, asset_name.clone(), amount);
 
@@ -137,6 +140,10 @@ fn compile_native_asset_for_mint(
 fn compile_ada_value(ir: &tir::AssetExpr) -> Result<primitives::Value, Error> {
     let amount = coercion::expr_into_number(&ir.amount)?;
 
+    if amount > u64::MAX as i128 {
+        return Err(Error::CoerceError(format!("{amount}"), "Coin".to_string()));
+    }
+
     Ok(value!(amount as u64))
 }
 
@@ -144,7 +151,7 @@ fn compile_value(ir: &tir::AssetExpr) -> Result<primitives::Value, Error> {
     let amount = coercion::expr_into_number(&ir.amount)?;
     if ir.policy.is_none() {
         compile_ada_value(ir)
-    } else if amount as i64 > 0 {
+    } else if amount > 0 {
         let asset = compile_native_asset_for_output(ir)?;
         Ok(value!(0, asset))
     } else {
